@@ -35,11 +35,12 @@ Definition load_claims (i : ident) (unmarshal_ok : ckind -> Z -> bool) : option 
     else if (k =? kind_name KUser)%string then typed_loader KUser v unmarshal_ok
     else if (k =? kind_name KActivation)%string then typed_loader KActivation v unmarshal_ok
     else if (k =? kind_name KAuthRequest)%string then
-      (* no version-1 form: the claims' own kind (nats section) must be the dispatched one *)
-      (if unmarshal_ok KAuthRequest v && (id_nats_type i =? kind_name KAuthRequest)%string
+      (* no version-1 form: the claims' own kind (nats section) must be the dispatched one, and the version
+         the claims report (nats section) must be the one that selects the signed text *)
+      (if unmarshal_ok KAuthRequest v && (id_nats_type i =? kind_name KAuthRequest)%string && (id_nats_version i =? v)
        then Some (KAuthRequest, v) else None)
     else if (k =? kind_name KAuthResponse)%string then
-      (if unmarshal_ok KAuthResponse v && (id_nats_type i =? kind_name KAuthResponse)%string
+      (if unmarshal_ok KAuthResponse v && (id_nats_type i =? kind_name KAuthResponse)%string && (id_nats_version i =? v)
        then Some (KAuthResponse, v) else None)
     else if (k =? "cluster")%string then None
     else if (k =? "server")%string then None
